@@ -222,8 +222,16 @@ def variants(fp, cls):
             add("coverageOutOfRange", f"coverage={c}",
                 lambda kw, c=c: (_cons(cls, kw, _valid_constraint(cls)), kw.__setitem__(coverage_key(cls), c)), {"cons", "cov"})
     if "subpath_constraints_coverage_length" in sig:
-        add("coverageLengthOutOfRange", "coverage_length=1.5",
-            lambda kw: (_cons(cls, kw, _valid_constraint(cls)), kw.update(subpath_constraints_coverage_length=1.5, length_attr="length")),
+        # documented: in (0, 1]; needs length_attr; cannot be combined with subpath_constraints_coverage < 1
+        for c in (0, 0.0, -0.5, 1.5):
+            add("coverageLengthOutOfRange", f"subpath_constraints_coverage_length={c!r}",
+                lambda kw, c=c: (_cons(cls, kw, _valid_constraint(cls)), kw.update(subpath_constraints_coverage_length=c, length_attr="length")),
+                {"cons", "cov"})
+        add("coverageLengthWithoutLengthAttr", "subpath_constraints_coverage_length=0.5 without length_attr",
+            lambda kw: (_cons(cls, kw, _valid_constraint(cls)), kw.update(subpath_constraints_coverage_length=0.5)), {"cons", "cov"})
+        add("coverageLengthWithCoverage", "subpath_constraints_coverage_length=0.5 with subpath_constraints_coverage=0.5",
+            lambda kw: (_cons(cls, kw, _valid_constraint(cls)),
+                        kw.update(subpath_constraints_coverage_length=0.5, length_attr="length", subpath_constraints_coverage=0.5)),
             {"cons", "cov"})
     if cls in HAS_K:
         for k in (0, -1):
